@@ -63,12 +63,14 @@ struct ToStr {
     bool nul_in_block;
 };
 
+static bool g_nice = false;  // the `nice` argument is documented nowhere and ignored by the code: both values must behave alike
+
 static ToStr to_string_cap(binson_parser *p, size_t cap, bool null_buf) {
     Block dst(null_buf ? 0 : cap);
     dst.fill(0xAB);
     size_t sz = null_buf ? 12345 : cap;
     ToStr r;
-    r.ret = binson_parser_to_string(p, null_buf ? nullptr : (char *)dst.p, &sz, false);
+    r.ret = binson_parser_to_string(p, null_buf ? nullptr : (char *)dst.p, &sz, g_nice);
     r.size = sz;
     r.nul_in_block = false;
     if (!null_buf) {
@@ -189,6 +191,7 @@ static const char *kName = "text";
 
 static void run_case(Src &s) {
     DocCase c = decode_doc(s, opts());
+    g_nice = (c.doc.size() & 1) != 0;
     std::string what = fmt("root=%s max_depth=%u doc=%s", c.array_root ? "array" : "object", c.depth, ref::hex(c.doc, 200).c_str());
     Stats &st = stats();
     if (is13()) {
